@@ -66,7 +66,22 @@ async def list_via_api(case, reply):
     try:
         script = [{"data": replies.login("0a0b0c0d", 44, 1)}, {"data": reply} if reply else {"eof": True}]
         dev.set_script(script)
-        return await cl.call("get_schedules", {})
+        first = await cl.call("get_schedules", {})
+        if not case.get("list_again") or first[0] != "ok" or not reply:
+            return first
+        # the same listing asked for again on the same object while the caller still holds (and has edited) the first
+        # answer: it owns what it was handed, the second answer is the device's again
+        held = first[1]
+        try:
+            for sch in list(held.schedules):
+                sch.days.clear()
+            if isinstance(held.schedules, set):
+                held.schedules.clear()
+        except Exception:
+            pass
+        dev.set_script([{"data": replies.login("0a0b0c0e", 44, 2)}, {"data": reply}])
+        second = await cl.call("get_schedules", {})
+        return ("ok", second[1], held) if second[0] == "ok" else second
     finally:
         await cl.close()
 
@@ -104,14 +119,17 @@ def body_listing(rep, case, sub="listing"):
                      "near-transition" if near else "ordinary-date", "via-" + case.get("via", "api")))
     with vclock.frozen(zone, y, mo, d, h, mi, s):
         if case.get("via", "api") == "api":
-            status, resp = net.run(list_via_api(case, reply))
+            out = net.run(list_via_api(case, reply))
+            status, resp = out[0], out[1]
+            if len(out) == 3:
+                rep.label("listed-again-after-editing-the-first-answer")
             if status != "ok":
                 raise Violation(f"C10/listing/get_schedules-fails/{type(resp).__name__ if resp is not None else status}", case,
                                 "a response", f"{status}: {resp!r}")
         else:
             from aioswitcher.api.messages import SwitcherGetSchedulesResponse
             resp = SwitcherGetSchedulesResponse(reply)
-        judge_listing(case, resp)
+        judge_listing(case, resp, "C10/listing" + ("/again-after-caller-edited-first-answer" if case.get("list_again") and case.get("via", "api") == "api" else ""))
         if case.get("via", "api") == "direct":
             # the caller owns what it got: editing a listed schedule's day set must not change what the same reply
             # parses to the next time
@@ -224,8 +242,8 @@ def strat_listing(tier, via):
             base = int(naive.replace(tzinfo=vclock.zone(z)).timestamp())
             recs = st.lists(record(base), min_size=0, max_size=8)
             dup = st.lists(record(base), min_size=2, max_size=8).map(_force_dup)
-            return st.builds(lambda rs, salt: {"zone": z, "now": [y, mo, d, h, mi, s], "records": rs, "near": near,
-                                               "via": via, "salt": salt},
+            return st.builds(lambda rs, salt: dict({"zone": z, "now": [y, mo, d, h, mi, s], "records": rs, "near": near,
+                                                    "via": via, "salt": salt}, **({"list_again": True} if via == "api" and salt % 3 == 0 else {})),
                              st.one_of(recs, recs, recs, dup), st.integers(0, 200))
         return st.sampled_from([30, 43200, 86370, 3 * 3600 + 1800]).flatmap(with_now)
     return lambda: st.sampled_from(pool).flatmap(for_date)
